@@ -38,7 +38,11 @@ def write(property_id, tier, seed, coverage, assumptions, wall_s, violations, le
         except ImportError:
             pass
     out = VERIF / 'evidence' / f'{property_id}.json'
-    out.parent.mkdir(exist_ok=True)
+    repo = os.environ.get('VERIF_REPO')
+    if repo and os.path.realpath(repo) != '/repo':
+        # a run against a scratch copy (seeded / mutated tree) must not overwrite the evidence describing /repo
+        out = VERIF / '.cache' / 'evidence-scratch' / f'{property_id}.json'
+    out.parent.mkdir(parents=True, exist_ok=True)
     tmp = out.with_suffix('.json.tmp')
     tmp.write_text(json.dumps(ev, indent=1, sort_keys=True, default=str) + '\n')
     os.replace(tmp, out)
